@@ -1129,7 +1129,45 @@ func (e *Exec) strBound(a, b *Str) int {
 	if b.MaxLen >= 0 && (n < 0 || b.MaxLen < n) {
 		n = b.MaxLen
 	}
+	if n < 0 || n > 64 {
+		// the static bound is useless (e.g. a key sliced out of a large buffer): ask whether
+		// the path condition bounds one of the lengths
+		for _, s := range []*Str{a, b} {
+			if k := e.provenLenBound(s.Len); k >= 0 && (n < 0 || k < n) {
+				n = k
+			}
+		}
+	}
 	return n
+}
+
+// provenLenBound returns a small k with pc => len <= k, or -1. Facts only grow along a
+// path, so results are cached per path.
+func (e *Exec) provenLenBound(l *Term) int {
+	if l.IsConst() {
+		return int(l.Val)
+	}
+	if k, ok := e.lenBounds[l]; ok {
+		return k
+	}
+	res := -1
+	if r := e.rangeOf(l); r.bounded() && r.hi >= 0 && r.hi <= 64 {
+		res = int(r.hi)
+	} else if !e.initMode {
+		for _, c := range []int64{4, 16, 64} {
+			e.solver.Push()
+			e.solver.Assert(e.tb.Slt(e.c64(c), l))
+			r := e.solver.Check()
+			e.solver.Pop()
+			if r == Unsat {
+				res = int(c)
+				break
+			}
+		}
+		e.model = nil
+	}
+	e.lenBounds[l] = res
+	return res
 }
 
 func (e *Exec) strEq(a, b *Str) *Term {
